@@ -187,6 +187,8 @@ pub struct Shared {
     pub log: Mutex<Vec<Ev>>,
     pub log_on: AtomicU32,
     pub last_tid: std::sync::atomic::AtomicUsize,
+    /// number of body executions completed so far (the writer of a concurrent round can wait for it)
+    pub exec_ends: AtomicU32,
 }
 
 impl Shared {
@@ -270,6 +272,7 @@ impl SimDatabase {
             log: Mutex::new(vec![]),
             log_on: AtomicU32::new(1),
             last_tid: std::sync::atomic::AtomicUsize::new(usize::MAX - 7),
+            exec_ends: AtomicU32::new(0),
         });
         let db = Self::with_shared(shared);
         db.populate(world);
@@ -637,6 +640,7 @@ fn exec<'db>(db: &'db dyn SimDb, node: usize, me: u64, r0: u32, ts0: Option<Ts<'
         }
         _ => {}
     }
+    sh.exec_ends.fetch_add(1, SeqCst);
     sh.push(Ev::ExecEnd { node, id: me, ret: out.ret, full });
     out
 }
